@@ -1,6 +1,14 @@
 package main
 
 func init() {
+	registerProp(&PropCfg{ID: "C01", Families: []string{"SAFE", "WF", "POST"},
+		SweepPrefixes: []string{"object.", "evaluator.", "props."}, SweepFamilies: []string{"SAFE", "WF"},
+		SweepExclude: []string{"object.(*PanObj).AddPairs"},
+		Composition: "induction on the evaluation: every value reaching a built-in was produced by a constructor or an evaluating function whose contract gives well-formedness; under well-formedness no swept instruction panics. Unchecked: the induction; termination/stack/memory (excluded by the property); the parser below tryParse's recover; goroutine start-up code in di; the echo HTTP module"})
+	registerProp(&PropCfg{ID: "C06", Families: []string{"FRAME"},
+		SweepPrefixes: []string{"object.", "evaluator.", "props."}, SweepFamilies: []string{"FRAME"},
+		SweepExclude: []string{"object.(*PanObj).AddPairs"},
+		Composition:  "if no function reachable from an evaluation writes memory of a value after the activation that allocated it (EC frame: only variables, iterator state, stack traces, symbol tables), nothing a program does later can change what an existing value prints, contains, equals or inherits; induction over the run is unchecked; native code acts only through the Go built-ins, which are all swept"})
 	registerProp(&PropCfg{ID: "C20", Families: []string{"LOCK", "SAFE"}, SweepGuarded: true,
 		Composition: "lock discipline per function => any interleaving of any number of goroutines is race-free on the guarded tables (standard argument; the Go memory model is trusted); Env.Store of scopes shared between goroutines is outside the statement"})
 	registerProp(&PropCfg{ID: "C05", Families: []string{"POST", "SAFE", "FRAME"},
